@@ -155,6 +155,8 @@ func checks() map[string]CheckDef {
 				Labels: []string{"C10/authenticates-iff-admin-or-issued-and-not-revoked", "C10/admin-flag-exact", "C10/admin-always-authenticates-as-admin", "C10/issued-token-authenticates-at-once", "C10/create-succeeds"}},
 			{Pkg: "internal/zzverif/c10", Func: "HarnessRevokeRace", Quick: [][]int64{{2}}, Thorough: [][]int64{{3}},
 				Labels: []string{"C10/revoked-token-never-authenticates-afterwards", "C10/other-tokens-unaffected-by-revocation", "C10/revoke-succeeds"}},
+			{Pkg: "internal/zzverif/c10", Func: "HarnessOddValues",
+				Labels: []string{"C10/authenticates-iff-admin-or-issued-and-not-revoked", "C10/other-tokens-unaffected-by-revocation", "C10/admin-always-authenticates-as-admin"}},
 			{Pkg: "transports/websocket", Func: "HarnessConnect", Quick: [][]int64{{1, 1}, {1, 0}}, Thorough: [][]int64{{3, 1}, {2, 0}},
 				Labels: []string{"C10/websocket-handshake-accepts-iff-token-valid", "C10/websocket-handshake-open-when-auth-off"}},
 		},
